@@ -1213,6 +1213,99 @@ ctl('j5-session-in-global', 'C03', 'J5', RT,
 	h.FeatureFlags.IfNotSet(featureflag.FlagDisableSessionState, func() {""", 'lastJoinedSession',
     'a package-level variable holds a session: shared by every connection of the process',
     edits=[dict(file=RT, old="func (h *RealtimeHandler) HandleWithModule(", new="var lastJoinedSession *models.Session\n\nfunc (h *RealtimeHandler) HandleWithModule(")])
+# ---- rules added from the mutation run and round 3
+ctl('b9-unsubscribe-not-performed', 'C13', 'B9', RT,
+    """	session.GetEntityComponents().Unsubscribe(req.EntityComponentTypeId, participant.ID)
+
+""", "", 'HandleEntityComponentUnsubscribe:performs', 'unsubscribe acknowledged, subscription kept')
+ctl('b9-join-answered-before-member', 'C07', 'B9', RT,
+    """	session.AddParticipant(participant)
+	h.stopFrameHandling = session.HandleFrame(handleFrame)
+
+	respond.Send(&hagallpb.ParticipantJoinResponse{
+		Type:          hagallpb.MsgType_MSG_TYPE_PARTICIPANT_JOIN_RESPONSE,
+		Timestamp:     timestamppb.Now(),
+		RequestId:     req.RequestId,
+		SessionId:     h.Sessions.GlobalSessionID(session.ID),
+		SessionUuid:   session.SessionUUID,
+		ParticipantId: participant.ID,
+	})
+""",
+    """	respond.Send(&hagallpb.ParticipantJoinResponse{
+		Type:          hagallpb.MsgType_MSG_TYPE_PARTICIPANT_JOIN_RESPONSE,
+		Timestamp:     timestamppb.Now(),
+		RequestId:     req.RequestId,
+		SessionId:     h.Sessions.GlobalSessionID(session.ID),
+		SessionUuid:   session.SessionUUID,
+		ParticipantId: participant.ID,
+	})
+	session.AddParticipant(participant)
+	h.stopFrameHandling = session.HandleFrame(handleFrame)
+""", 'HandleParticipantJoin:performs[Session.AddParticipant]', 'join answered with success before the joiner is a member')
+ctl('e5-done-at-start', 'C08', 'E5', HD,
+    """	wg.Add(1)
+	go func() {
+		defer wg.Done()
+		h.startSending(ctx)
+	}()""",
+    """	wg.Add(1)
+	go func() {
+		wg.Done()
+		h.startSending(ctx)
+	}()""", 'done-when-goroutine-ends')
+ctl('e5-surplus-add', 'C08', 'E5', HD,
+    """	wg.Add(1)
+	go func() {
+		defer wg.Done()
+		h.startSending(ctx)
+	}()""",
+    """	wg.Add(2)
+	go func() {
+		defer wg.Done()
+		h.startSending(ctx)
+	}()""", 'wait-group-balanced', 'Wait never returns: the handler is wedged after every disconnect')
+ctl('g2-panic-swallowed', 'C08', 'G2', HD,
+    """			err = errors.New("handling message panicked").WithTag("panic", r)
+""", """			_ = r
+""", 'recovered-panic-reported')
+ctl('i4-end-not-recorded', 'C18', 'I4', 'models/signed_latency.go',
+    """	pingRequest.End = time.Now()
+""", "", 'end-recorded')
+ctl('i4-answered-guard-inverted', 'C18', 'I4', 'models/signed_latency.go',
+    """	if !pingRequest.End.IsZero() {""", """	if pingRequest.End.IsZero() {""", 'answered-once')
+ctl('i5-empty-field-queued', 'C19', 'I5', RT,
+    """	if len(req.GetReceipt()) == 0 || len(req.GetHash()) == 0 || len(req.GetSignature()) == 0 {""",
+    """	if len(req.GetReceipt()) == 0 || len(req.GetHash()) == 0 && len(req.GetSignature()) == 0 {""", 'fields-nonempty')
+ctl('i5-retry-after-error', 'C19', 'I5', 'receipt/handler.go',
+    """		if err := instrumentReceiptSend(rh.NCSEndpoint, func() error {
+			return client.PostReceipt(ctx, payload)
+		}); err != nil {""",
+    """		send := func() error {
+			return instrumentReceiptSend(rh.NCSEndpoint, func() error {
+				return client.PostReceipt(ctx, payload)
+			})
+		}
+		err := send()
+		if err != nil && ctx.Err() == nil {
+			err = send()
+		}
+		if err != nil {""", 'at-most-once-per-path', 'a second attempt after an error can deliver an accepted receipt twice')
+ctl('c3-encode-failure-delivered', 'C02', 'C3', SE,
+    """		logs.WithTag("message", protoMsg).Debug(err)
+		return
+	}
+
+	for _, p := range s.participants {""",
+    """		logs.WithTag("message", protoMsg).Debug(err)
+	}
+
+	for _, p := range s.participants {""", 'nothing-sent-when-encoding-failed')
+ctl('e6-slot-from-table-size', 'C11', 'E6', SE,
+    """	id := s.frameHandlerIDs.New()
+	s.frameHandlers[id] = h""",
+    """	id := uint32(len(s.frameHandlers)) + 1
+	s.frameHandlers[id] = h""", 'HandleFrame:fresh-slot', 'a slot derived from the table size collides with a live registration after a departure',
+    edits=[dict(file=SE, old="\t\tdelete(s.frameHandlers, id)\n\t\ts.frameHandlerIDs.Reuse(id)", new="\t\tdelete(s.frameHandlers, id)")])
 ctl('e7-remove-any-registered', 'C07', 'E7', SE,
     """	if registered, ok := s.sessions[id]; !ok || registered != session {""",
     """	if _, ok := s.sessions[id]; !ok {""", 'Remove:idempotent',
